@@ -207,7 +207,7 @@ func hostKind(h string) string {
 
 func TestCheck(t *testing.T) {
 	r := vp.New("C20", "exploration",
-		"URL round trip: nested loops over scheme x host x port x path (paths: every sequence of <=N symbols over all printable ASCII characters, 'é', '%2F', '%25', '//' after a leading '/'); URLs given as text and parsed with net/url: every printable ASCII character and 'é' written as a percent-escape in upper- and lower-case hex, alone, inside segments and in ordered pairs (the decoded path is what has to survive); a case is non-trivial when it has a port or a path; distinct = distinct (scheme,host,port,path). Helpers: every list of length <=4 over a 15-address alphabet incl. nil and duplicates, all pairs of lists of length <=3 for equality.",
+		"URL round trip: nested loops over scheme x host x port x path (paths: every sequence of <=N symbols over all printable ASCII characters, 'é', '%2F', '%25', '//' after a leading '/'); URLs given as text and parsed with net/url: every printable ASCII character and 'é' written as a percent-escape in upper- and lower-case hex, alone, inside segments and in ordered pairs (the decoded path is what has to survive); a case is non-trivial when it has a port or a path; distinct = distinct (scheme,host,port,path). Helpers: every list of length <=4 over a 22-address alphabet (public, private, loopback, unspecified, localhost; the IP followed by tcp, udp, sctp, tls, http or nothing) incl. nil and duplicates, all pairs of lists of length <=3 for equality.",
 		"URLs are built as url.URL{Scheme,Host,Path} values, and (section 2b) parsed from text; hosts are limited to 3 IPv4, 3 IPv6 (no zone, not v4-mapped) and 3 DNS names",
 		"IPv6 hosts are compared as IP values, not as text",
 		"FilterPublic: link-local and other special ranges that are neither loopback, private (net.IP.IsPrivate) nor unspecified are accepted either way; nothing is required of nil entries",
@@ -393,6 +393,15 @@ var addrAlphabet = []addrSym{
 	{s: "/ip6/::/tcp/3003", remove: true},
 	{s: "/ip6/fd00::1/tcp/3003", remove: true},
 	{s: "/dns/localhost/tcp/80/http", http: true, remove: true},
+	// the IP address followed by something other than tcp (what makes an
+	// address private is its IP component alone)
+	{s: "/ip4/127.0.0.1", remove: true},
+	{s: "/ip4/10.0.0.7/udp/4001/quic-v1", remove: true},
+	{s: "/ip4/192.168.1.4/http", http: true, remove: true},
+	{s: "/ip6/::/tls", remove: true},
+	{s: "/ip4/127.0.0.1/sctp/5000", remove: true},
+	{s: "/ip4/8.8.4.4/udp/4001/quic-v1", keep: true},
+	{s: "/ip4/8.8.4.4/http", http: true, keep: true},
 	{s: "", http: false}, // nil entry
 }
 
